@@ -43,7 +43,23 @@ def run_search(ctx, vh, seed_offset=0, tag="determ"):
     ctx.seed = saved + seed_offset
     outs = core.run_sharded(ctx, vh, "determ", tag=tag)
     ctx.seed = saved
-    rows = core.read_tsv(outs, "impl.tsv")
+    rows = [r for r in core.read_tsv(outs, "impl.tsv") if len(r) >= 7]
+    # a shard whose generator died with an unrecoverable runtime error leaves its progress marker
+    import os
+    for o in outs:
+        pf = os.path.join(o, "progress")
+        if os.path.exists(pf):
+            f = open(pf).read().split("\t")
+            err = ""
+            try:
+                err = open(os.path.join(o, "stderr.txt")).read()
+            except OSError:
+                pass
+            first = next((l for l in err.split("\n") if l.startswith("fatal error") or l.startswith("panic:")), err[-300:])
+            if len(f) >= 3 and not any(v.get("kind", "").startswith("the generator process died") for v in ctx.violations):
+                ctx.violations.append({"kind": "the generator process died (unrecoverable runtime error) while generating this spec repeatedly: the outcome is not a function of the inputs",
+                                       "spec_name": f[0], "spec_kind": f[1], "runtime_error": first[:400], "spec": bytes.fromhex(f[2]).decode("utf-8", "replace"),
+                                       "how": "vh determ: repeated in-process runs of goag.Generator.GenerateFile on this spec"})
     return rows, core.merge_meta(outs)
 
 
